@@ -43,6 +43,10 @@ def ref_coords(kinds, pt):
             side += [r >= 0, r * r == x * x + y * y + z * z]
             out.append(r)
         elif k == "phi":
+            if z3.is_rational_value(y) and y.numerator_as_long() == 0:
+                # point on the x axis (y = +0.0 or -0.0): phi is pi on the negative side, 0 otherwise - whatever the sign of the zero
+                out.append(z3.If(x < 0, PI, z3.RealVal(0)))
+                continue
             a = UF["atan2"](y, x)
             out.append(z3.If(a < 0, a + TWO_PI, a))
         elif k == "theta":
@@ -179,6 +183,10 @@ class C15Paths(Harness):
             for way in ("fill", "fill_n", "find_bin", "facade", "fill_transformed", "fill_n_transformed"):
                 yield f"path-{name}-{way}", dict(cls=name, way=way)
             # histories that pass the SAME float64 array object to several entry paths (the caller's array must not be consumed)
+            # IEEE negative zero as y coordinate of a point on the x axis (arctan2(-0.0, x<0) is -pi, to be folded to +pi)
+            if "phi" in CLS[name][2]:
+                for way in ("fill", "fill_n", "find_bin") + (("facade",) if name != "cylinder_surface" else ()):
+                    yield f"path-{name}-{way}-negzero", dict(cls=name, way=way, negzero=True)
             for way in ("find_then_fill", "fill_n_twice") + (("facade_then_fill_n",) if name in ("spherical", "sphere_surface", "cylindrical") else ()):
                 yield f"path-{name}-{way}", dict(cls=name, way=way)
 
@@ -187,6 +195,10 @@ class C15Paths(Harness):
         x = {"p": _pt(cx, "p", d), "e": _decl_bins(cx, CLS[p["cls"]][2])}
         if cx.sym:
             cx.assume(*[z3.And(cx.t(c) >= -100, cx.t(c) <= 100) for c in x["p"]])
+        if p.get("negzero"):
+            if cx.sym:
+                cx.assume(x["p"][1] == 0)
+            x["p"] = [x["p"][0], -0.0] + list(x["p"][2:])
         return x
 
 
